@@ -240,7 +240,7 @@ Lemma cmap_eq a pairs :
 Proof. reflexivity. Qed.
 
 Lemma Jok_matches a re x y : Jok x -> Jok y -> Jok (EMatches a re x y).
-Proof. intros IHx IHy C base H. destruct re; cbn [compile] in *; jopen H; jsolve. Qed.
+Proof. intros IHx IHy C base H. cbn [compile] in *. destruct (re_const re y); jopen H; jsolve. Qed.
 
 Lemma Jok_property a x n ns : Jok x -> Jok (EProperty a x n ns).
 Proof. intros IHx C base H. cbn [compile] in *. jopen H. destruct ns; cbn [jumps_ok_from]; jsolve. Qed.
